@@ -148,7 +148,8 @@ pub fn mtu(trace: &[Value]) -> Vec<Value> {
                 out.push(json!({"ev":"Until","t":cap(&e["t"]),"ok":e["ok"],"newbig":newbig}));
                 continue;
             }
-            if ev == "Panic" || ev == "StepBound" {
+            // (the cap on the length of a recording is the harness's, not a loop in quinn: the run is just cut)
+            if ev == "Panic" || (ev == "StepBound" && e["what"] != "max_trace") {
                 out.push(json!({"ev":"Abnormal","t":cap(&e["t"]),"what":ev}));
                 continue;
             }
